@@ -209,7 +209,8 @@ def ZAt (nt : Bool) (sh : Shared) (q : Bytes) (c : Cur) (msg : Bytes) : Nat → 
   | 3 => sh.zpend = [] ∧ c.zout = some (q, msg) ∧ sh.zctx = (if nt then [] else q ++ msg)
   | _ => True
 
-structure ZInv (v : Variant) (cfg : Cfg) (s : State) : Prop where
+/-- the invariant while the socket is open (not shut) -/
+structure ZLive (v : Variant) (cfg : Cfg) (s : State) : Prop where
   dz : ∀ t, zdisc cfg.noTakeover (view v cfg (s.th t)) = true
   dec : ∃ ms, peerDecode cfg.noTakeover [] (frames s.sh.wire) = some ms ∧
     ∀ x ∈ ms, ∃ call, (s.th x.1).prog[x.2.1]? = some call ∧ x.2.2 = call.msg
@@ -229,8 +230,8 @@ theorem fresh_zpos (v : Variant) (cfg : Cfg) (th : Thread) (h : th.cur = none) :
   · rfl
   · exact compile_zpos v cfg call
 
-theorem zInv_init (v : Variant) (cfg : Cfg) (progs : Tid → List Call) (hv : v.compressUnderLock = true) :
-    ZInv v cfg (init progs) := by
+theorem zLive_init (v : Variant) (cfg : Cfg) (progs : Tid → List Call) (hv : v.compressUnderLock = true) :
+    ZLive v cfg (init progs) := by
   constructor
   · intro t; exact fresh_zdisc v cfg _ hv rfl
   · exact ⟨[], rfl, fun x hx => by cases hx⟩
@@ -285,8 +286,9 @@ theorem frames_w1 (w : List Chunk) (x : Chunk) (h : x.second = false) : frames (
 
 /-- (needs only the lock and the call invariants, so that it serves the general socket of
     `Model/ThreadsN.lean` as well) -/
-theorem zInv_stepLC (v : Variant) (cfg : Cfg) (s : State) (t : Tid) (hvz : v.compressUnderLock = true)
-    (L : LockInv v cfg s) (C : CallInv v cfg s) (Z : ZInv v cfg s) : ZInv v cfg (step v cfg s t) := by
+theorem zLive_stepLC (v : Variant) (cfg : Cfg) (s : State) (t : Tid) (hvz : v.compressUnderLock = true)
+    (L : LockInv v cfg s) (C : CallInv v cfg s) (Z : ZLive v cfg s) (hns : s.sh.sockShut = false) :
+    ZLive v cfg (step v cfg s t) := by
   rcases step_cases v cfg s t with e | ⟨c, st, r, hc, hr, hb, e⟩
   · rw [e]; exact Z
   · rw [e]
@@ -472,9 +474,12 @@ theorem zInv_stepLC (v : Variant) (cfg : Cfg) (s : State) (t : Tid) (hvz : v.com
           cases r with
           | nil => simp at this
           | cons a r2 => cases a <;> simp at this; subst this; exact ⟨r2, rfl⟩
-        have hp2 : (exec v t (Step.write1 f) (Step.write2 f :: r2) s.sh c).2.rest = .write2 f :: r2 := rfl
-        have hfr : frames (exec v t (Step.write1 f) (Step.write2 f :: r2) s.sh c).1.wire = frames s.sh.wire :=
-          frames_w1 _ _ rfl
+        have hex : exec v t (Step.write1 f) (Step.write2 f :: r2) s.sh c =
+            ({ s.sh with wire := s.sh.wire ++ [⟨t, c.idx, false, descOf f c⟩] }, { c with rest := .write2 f :: r2 }) := by
+          simp [exec, hns]
+        have hp2 : (exec v t (Step.write1 f) (Step.write2 f :: r2) s.sh c).2.rest = .write2 f :: r2 := by rw [hex]
+        have hfr : frames (exec v t (Step.write1 f) (Step.write2 f :: r2) s.sh c).1.wire = frames s.sh.wire := by
+          rw [hex]; exact frames_w1 _ _ rfl
         refine ⟨hdz _ m, ?_, ?_, ?_⟩
         · obtain ⟨ms, h1, h2⟩ := Z.dec
           refine ⟨ms, by rw [setTh_sh, hfr]; exact h1, ?_⟩
@@ -491,9 +496,9 @@ theorem zInv_stepLC (v : Variant) (cfg : Cfg) (s : State) (t : Tid) (hvz : v.com
             have hbefore := Z.at_ u c call2 hc hcall
             rw [hr] at hbefore
             have e1 : zpos (Step.write1 f :: Step.write2 f :: r2) = zpos (exec v u (Step.write1 f) (Step.write2 f :: r2) s.sh c).2.rest := by
-              simp [exec, zpos]
+              simp [exec, zpos, hns]
             rw [← e1]
-            exact ZAt_congr rfl rfl rfl hbefore
+            exact ZAt_congr (by rw [hex]) (by rw [hex]) (by rw [hex]) hbefore
           · rw [hp2] at he; cases he
         · intro hall
           rw [setTh_sh, hfr]
@@ -505,13 +510,17 @@ theorem zInv_stepLC (v : Variant) (cfg : Cfg) (s : State) (t : Tid) (hvz : v.com
               rw [setTh_same, view_settle_zpos v cfg _ _ hh, hp2] at this
               rw [hv]; simpa [zpos] using this
             · exact others hl u hu
-          exact Z.idle hall'
+          have := Z.idle hall'
+          rw [hex]; exact this
       | write2 f =>
         have hl : holds (Step.write2 f :: r) = true := by
           simp only [disc, Bool.and_eq_true] at d; simpa [holds] using d.1.2.1
         have hf : f = call.frame cfg := by
           simp only [srcOk, List.all_cons, Bool.and_eq_true] at hsrc; simpa using hsrc.1
-        have hp2 : (exec v t (Step.write2 f) r s.sh c).2.rest = r := rfl
+        have hex : exec v t (Step.write2 f) r s.sh c =
+            ({ s.sh with wire := s.sh.wire ++ [⟨t, c.idx, true, descOf f c⟩] }, { c with rest := r, wrote := true }) := by
+          simp [exec, hns]
+        have hp2 : (exec v t (Step.write2 f) r s.sh c).2.rest = r := by rw [hex]
         have hz0 : zpos r = 0 := by
           simp only [disc, Bool.and_eq_true] at d
           simp only [zdisc, Bool.and_eq_true] at z
@@ -521,7 +530,7 @@ theorem zInv_stepLC (v : Variant) (cfg : Cfg) (s : State) (t : Tid) (hvz : v.com
           | nil => rfl
           | cons a r3 => cases a <;> simp_all [zpos, zPrev, noWrite, isWrite]
         have hfr : frames (exec v t (Step.write2 f) r s.sh c).1.wire =
-            frames s.sh.wire ++ [⟨t, c.idx, true, descOf f c⟩] := frames_w2 _ _ rfl
+            frames s.sh.wire ++ [⟨t, c.idx, true, descOf f c⟩] := by rw [hex]; exact frames_w2 _ _ rfl
         have hall0 : ∀ u, zpos (view v cfg ((setTh s t (settle (s.th t) (exec v t (Step.write2 f) r s.sh c).2)
             (exec v t (Step.write2 f) r s.sh c).1).th u)) = 0 := by
           intro u
@@ -559,7 +568,7 @@ theorem zInv_stepLC (v : Variant) (cfg : Cfg) (s : State) (t : Tid) (hvz : v.com
             rw [hat0 u c2 hc2]; trivial
           · intro _
             rw [setTh_sh, hfr, hq]
-            exact hidle
+            rw [hex]; exact hidle
         | zreg =>
           -- the compressed frame reaches the wire: the peer's context becomes the compressor's
           have hbefore := Z.at_ t c call hc hcall
@@ -588,8 +597,57 @@ theorem zInv_stepLC (v : Variant) (cfg : Cfg) (s : State) (t : Tid) (hvz : v.com
             rw [hat0 u c2 hc2]; trivial
           · intro _
             rw [setTh_sh, hfr, hq]
-            exact ⟨hb1, hb3⟩
+            rw [hex]; exact ⟨hb1, hb3⟩
       | _ => exact absurd hq (by simp [quiet])
+
+/-- **The invariant along a run**: every thread's compression steps are disciplined and the peer can inflate what is
+    on the wire — always; the tie between the compression object and the wire (`ZLive`) as long as the socket has not
+    been shut.  (A compressed send that finds the socket shut has advanced the compressor's context, and its frame
+    never reaches the peer: from then on the two contexts differ — and nothing is written any more.) -/
+structure ZInv (v : Variant) (cfg : Cfg) (s : State) : Prop where
+  dz : ∀ t, zdisc cfg.noTakeover (view v cfg (s.th t)) = true
+  dec : ∃ ms, peerDecode cfg.noTakeover [] (frames s.sh.wire) = some ms ∧
+    ∀ x ∈ ms, ∃ call, (s.th x.1).prog[x.2.1]? = some call ∧ x.2.2 = call.msg
+  live : s.sh.sockShut = false → ZLive v cfg s
+
+theorem ZLive.inv {v : Variant} {cfg : Cfg} {s : State} (Z : ZLive v cfg s) : ZInv v cfg s :=
+  ⟨Z.dz, Z.dec, fun _ => Z⟩
+
+theorem zInv_init (v : Variant) (cfg : Cfg) (progs : Tid → List Call) (hv : v.compressUnderLock = true) :
+    ZInv v cfg (init progs) := (zLive_init v cfg progs hv).inv
+
+/-- on a shut socket no step changes the wire -/
+theorem exec_wire_shut (v : Variant) (t : Tid) (st : Step) (r : List Step) (sh : Shared) (c : Cur)
+    (hs : sh.sockShut = true) : (exec v t st r sh c).1.wire = sh.wire := by
+  rw [exec_wire]; cases st <;> simp [hs]
+
+/-- once the socket is shut the wire is frozen, the discipline of the programs goes on
+    (needs only the lock and the call invariants, so that it serves the general socket as well) -/
+theorem zInv_stepLC (v : Variant) (cfg : Cfg) (s : State) (t : Tid) (hvz : v.compressUnderLock = true)
+    (L : LockInv v cfg s) (C : CallInv v cfg s) (Z : ZInv v cfg s) : ZInv v cfg (step v cfg s t) := by
+  cases hsx : s.sh.sockShut with
+  | false => exact (zLive_stepLC v cfg s t hvz L C (Z.live hsx) hsx).inv
+  | true =>
+    rcases step_cases v cfg s t with e | ⟨c, st, r, hc, hr, hb, e⟩
+    · rw [e]; exact Z
+    · rw [e]
+      have hh := current_not_halted hc
+      have hv : view v cfg (s.th t) = st :: r := by rw [view_of_current hc, hr]
+      have z : zdisc cfg.noTakeover (st :: r) = true := hv ▸ Z.dz t
+      have m := exec_moves v t st r s.sh c
+      have hw := exec_wire_shut v t st r s.sh c hsx
+      have hsh := exec_shut v t st r s.sh c
+      generalize exec v t st r s.sh c = p at m hw hsh
+      refine ⟨?_, ?_, ?_⟩
+      · intro u
+        by_cases hu : u = t
+        · subst hu; rw [setTh_same]; exact view_settle_zdisc v cfg _ _ hvz hh (moves_zdisc m z)
+        · rw [setTh_other _ _ _ _ _ hu]; exact Z.dz u
+      · obtain ⟨ms, h1, h2⟩ := Z.dec
+        refine ⟨ms, by rw [setTh_sh, hw]; exact h1, ?_⟩
+        intro x hx; rw [prog_after]; exact h2 x hx
+      · intro hn
+        rw [setTh_sh, hsh, hsx] at hn; cases hn
 
 theorem zInv_step (v : Variant) (cfg : Cfg) (s : State) (t : Tid) (hvz : v.compressUnderLock = true)
     (B : Base v cfg s) (Z : ZInv v cfg s) : ZInv v cfg (step v cfg s t) :=
